@@ -27,6 +27,7 @@ func main() {
 	dump := flag.String("dump", "", "dev aid: rel,recv,func — print all paths of a function")
 	dumpPat := flag.String("dump-pkgs", ".", "patterns to load for -dump")
 	alpha := flag.String("alpha-out", "", "dev/self-test: write an alpha-renamed copy (every local x → x_ar) of the property's packages under this directory")
+	noise := flag.String("noise-out", "", "dev/self-test: write a copy of the property's packages with a no-op statement at the start of every block")
 	variant := flag.String("variant-overlay", "", "internal (thorough self-test): run the quick rules on /repo overlaid with the files under this directory, print one VARIANT line, write nothing")
 	flag.Parse()
 	if *dump != "" {
@@ -62,6 +63,13 @@ func main() {
 	if *alpha != "" {
 		if err := alphaVariant(p, *repo, *alpha); err != nil {
 			fmt.Fprintln(os.Stderr, "alpha:", err)
+			os.Exit(2)
+		}
+		return
+	}
+	if *noise != "" {
+		if err := noiseVariant(p, *repo, *noise); err != nil {
+			fmt.Fprintln(os.Stderr, "noise:", err)
 			os.Exit(2)
 		}
 		return
@@ -149,9 +157,20 @@ func run(p *props.Property, tier string, seed int64, repo, root string, only map
 			fmt.Printf("SELFTEST-ALPHA property=%s the rules report %v on a behaviour-preserving renaming of locals (%s)\n", p.ID, rep, note)
 		}
 	}
+	if tier == "thorough" && len(only) == 0 {
+		nOK, rep, note := noiseSelfTest(p, repo, root)
+		ctx.Extra["selftest_noise"] = map[string]any{"what": "a statement without effect inserted at the start of every block of the property's packages (in-memory copy); the rules must report nothing on it",
+			"silent": nOK, "reported_rules": rep, "note": note}
+		if nOK {
+			fmt.Printf("selftest %s: no-op-statement variant: silent %s\n", p.ID, note)
+		} else {
+			fmt.Printf("SELFTEST-NOISE property=%s the rules report %v when a no-op statement is added to every block (%s)\n", p.ID, rep, note)
+			alphaOK = false
+		}
+	}
 	code = ctx.Finish(p.Explanation, p.Assumptions)
 	if code == 0 && !alphaOK {
-		fmt.Printf("UNDECIDED property=%s some rules depend on the names of local variables; their silence on today's tree is not trusted\n", p.ID)
+		fmt.Printf("UNDECIDED property=%s some rules depend on the names of local variables or on the exact statement list of a block; their silence on today's tree is not trusted\n", p.ID)
 		return 3
 	}
 	if code == 0 && misses > 0 {
